@@ -223,7 +223,12 @@ func (w *World) Close() {
 		w.HTTP.Close()
 	}
 	w.Cancel()
-	<-w.hubDone
+	select {
+	case <-w.hubDone:
+	case <-time.After(10 * time.Second):
+		// the hub goroutine is stuck inside a listener (the check that caused or found this has
+		// reported it already): abandon it rather than wedge the whole run
+	}
 	if w.Dir != "" {
 		_ = os.RemoveAll(w.Dir)
 	}
